@@ -112,7 +112,7 @@ func TestMain(m *testing.M) {
 	if k := os.Getenv("C05_CHILD"); k != "" {
 		os.Exit(firstOp(k))
 	}
-	R.Require("first_operation", "key_buffer_reuse", "key_buffer_wiped_before_first_use", "helper_calls_between_objects", "sbox_sweep_complete", "dst==src", "history>=3", "badkeylen")
+	R.Require("first_operation", "key_buffer_reuse", "keylen_independent_of_package_iv", "key_buffer_wiped_before_first_use", "helper_calls_between_objects", "sbox_sweep_complete", "dst==src", "history>=3", "badkeylen")
 	R.Assume("ref/rsm4 reproduces both GM/T 0002 vectors (TestRefSelf in setup; single-block vector re-checked here)")
 	hx.Main(m, R)
 }
@@ -435,6 +435,35 @@ func TestC05_KeyLengths(t *testing.T) {
 		"digits": func(n int) []byte { return []byte(strings.Repeat("0123456789", 7)[:n]) },
 	}
 	var cnt int64
+	// the block cipher has no business with the package-level IV of the mode helpers, whatever an application has put
+	// there (the variable is exported): the sweep runs under the default IV and under IVs of other lengths
+	savedIV := sm4.IV
+	defer func() { sm4.IV = savedIV }()
+	for ivName, iv := range map[string][]byte{"default": savedIV, "nil": nil, "12 bytes": make([]byte, 12), "32 bytes": bytes.Repeat([]byte{7}, 32)} {
+		sm4.IV = iv
+		for _, n := range []int{0, 12, 15, 16, 17, 32} {
+			key := fills["pattern"](n)
+			var c cipher.Block
+			var err error
+			if p := hx.Try(func() { c, err = sm4.NewCipher(key) }); p != nil {
+				t.Fatalf("NewCipher(len %d) panicked while the package IV is %s: %v", n, ivName, p.Val)
+			}
+			if (n == 16) != (err == nil && c != nil) {
+				t.Fatalf("NewCipher(len %d) = (%v, %v) while the package IV of the mode helpers is %s", n, c != nil, err, ivName)
+			}
+			if n == 16 {
+				want, got := make([]byte, 16), make([]byte, 16)
+				rsm4.Must(key).Encrypt(want, key)
+				c.Encrypt(got, key)
+				if !bytes.Equal(got, want) {
+					t.Fatalf("Encrypt differs from GM/T 0002 while the package IV is %s", ivName)
+				}
+			}
+			cnt++
+		}
+	}
+	sm4.IV = savedIV
+	R.Case(true, hx.HashKey("keylen-iv"), "keylen_independent_of_package_iv")
 	for name, fill := range fills {
 		for n := 0; n <= 64; n++ {
 			key := fill(n)
